@@ -972,6 +972,7 @@ struct Dumper {
             if (isa<CXXDestructorDecl>(MD)) o << ",\"dtor\":1";
         }
         o << ",\"ret\":" << typeOf(FD->getReturnType());
+        if (!FD->getReturnType().isNull() && !FD->getReturnType()->isDependentType()) o << ",\"cret\":" << typeOf(FD->getReturnType().getCanonicalType());
         o << ",\"params\":[";
         for (unsigned i = 0; i < FD->getNumParams(); ++i) {
             if (i) o << ",";
